@@ -9,6 +9,7 @@ import (
 	"math/rand"
 	"os"
 	"path/filepath"
+	"sort"
 	"strings"
 
 	comet "github.com/wizenheimer/comet"
@@ -733,6 +734,19 @@ func (r *vecRun) battery() error {
 				return err
 			}
 		}
+		// the same node named twice, alone and next to a query and another node
+		for _, agg := range []string{"sum", "mean"} {
+			if err := r.exec(vop{A: "search", Nodes: []int{1, 1}, K: 2, P: -1, Agg: agg}); err != nil {
+				return err
+			}
+			if err := r.exec(vop{A: "search", Q: []int{2}, Nodes: []int{2, 1, 2}, K: -1, P: -1, Agg: agg}); err != nil {
+				return err
+			}
+		}
+	}
+	// a repeated query vector counts as often as it is given
+	if err := r.exec(vop{A: "search", Q: []int{1, 1, 2}, K: 2, P: -1, Agg: "mean"}); err != nil {
+		return err
 	}
 	for _, agg := range []string{"sum", "max", "mean"} {
 		if err := r.exec(vop{A: "search", Q: []int{1, 2}, K: 2, P: -1, Agg: agg}); err != nil {
@@ -841,6 +855,7 @@ func (r *vecRun) randomHistory(steps int) error {
 			for id := range r.live {
 				liveIDs = append(liveIDs, id)
 			}
+			sort.Ints(liveIDs)
 			for i := 0; i < nq; i++ {
 				useNode := rng.Intn(4) == 0 && !(e.quantised() && r.reloaded)
 				if useNode {
@@ -852,7 +867,7 @@ func (r *vecRun) randomHistory(steps int) error {
 								dup = true
 							}
 						}
-						if !dup {
+						if !dup || rng.Intn(2) == 0 { // the same node may be named more than once
 							op.Nodes = append(op.Nodes, cand)
 							continue
 						}
@@ -860,6 +875,10 @@ func (r *vecRun) randomHistory(steps int) error {
 						op.Nodes = append(op.Nodes, 1+rng.Intn(14)) // possibly unknown or removed
 						continue
 					}
+				}
+				if len(op.Q) > 0 && rng.Intn(6) == 0 {
+					op.Q = append(op.Q, op.Q[len(op.Q)-1]) // the same query vector twice
+					continue
 				}
 				op.Q = append(op.Q, 1+perm[i])
 			}
